@@ -24,7 +24,8 @@ in-memory SQLite and compares the returned rows.
 Static conditions (plain strings, `field_name is None`) are opaque boolean column expressions:
 their value on a row is what SQLite computes for the caller's text (supplied by the harness).
 
-Out of the model: the inside of a static condition, column affinity, floats / blobs,
+Out of the model: the inside of a static condition and of an ORDER BY key expression (both the
+caller's own SQL: their value per row is supplied), column affinity, floats,
 integers outside 64 bits, NUL characters, non-ASCII operator spellings (`str.upper` is modelled
 for ASCII only), `GROUP BY` semantics (the text is assembled, rows are never computed with it).
 -/
@@ -35,14 +36,27 @@ abbrev Str := List Char
 
 /-! ## values and what the caller writes -/
 
-/-- a Python value that sqlite3 can bind / a cell of an untyped column: `None`, `int`, `str`, bytes -/
+/-- a Python value that sqlite3 can bind / a cell of an untyped column: `None`, `int`, `str`, bytes;
+or an object of another class that the database driver itself adapts when it binds it -/
 inductive Value where
   | null
   | int (i : Int)
   | text (s : Str)
   /-- `bytes` / `bytearray` / `memoryview`: one value for SQL (a BLOB), never a list of its bytes -/
   | blob (bytes : List Nat)
+  /-- an operand that is none of the above and that the driver adapts on binding: a
+  `datetime.datetime`, a `datetime.date`, an object with `__conform__`, an object of a class with a
+  registered adapter (`cls` says which; no meaning in the model beyond being kept). `img` is the text
+  the driver writes for it (`datetime` → `isoformat(" ")`), i.e. what the database compares.
+  Never a cell of a table. The code must hand over the object itself. -/
+  | obj (cls : Nat) (img : Str)
   deriving DecidableEq, Repr, Inhabited
+
+/-- what the database sees when the value is bound: the driver's image of an adapted object, the
+value itself otherwise (library behaviour: modelled, not verified) -/
+def Value.db : Value → Value
+  | .obj _ s => .text s
+  | v => v
 
 /-- the value part of a condition: one object, a list/tuple, or a set (in its iteration order) -/
 inductive Arg where
@@ -503,11 +517,16 @@ def natsLt : List Nat → List Nat → Bool
   | a :: as, b :: bs => if a < b then true else if b < a then false else natsLt as bs
 
 /-- SQLite's order of values (used by comparisons on non-NULL values and by ORDER BY):
-NULL < integers (numeric) < texts (BINARY) < blobs (memcmp) -/
+NULL < integers (numeric) < texts (BINARY) < blobs (memcmp). An adapted object is never stored and
+never compared as such (`cmp3` compares its image, `Value.db`); it is placed after the blobs, by
+class and image, only so that the order stays total on the whole type. -/
 def vLt : Value → Value → Bool
   | .null, .null => false
   | .null, _ => true
   | _, .null => false
+  | .obj c a, .obj d b => decide (c < d) || (decide (c = d) && strLt a b)
+  | .obj _ _, _ => false
+  | _, .obj _ _ => true
   | .int a, .int b => decide (a < b)
   | .int _, .text _ => true
   | .text _, .int _ => false
@@ -516,8 +535,8 @@ def vLt : Value → Value → Bool
   | .blob _, _ => false
   | _, .blob _ => true
 
-/-- `x <op> y` -/
-def cmp3 (c : CmpOp) (x y : Value) : Tri :=
+/-- `x <op> y` on stored values -/
+def cmpDb (c : CmpOp) (x y : Value) : Tri :=
   match x, y with
   | .null, _ => .unk
   | _, .null => .unk
@@ -529,6 +548,9 @@ def cmp3 (c : CmpOp) (x y : Value) : Tri :=
       | .gt => vLt y x
       | .le => !vLt y x
       | .ge => !vLt x y)
+
+/-- `x <op> y` as the database evaluates it: an adapted object takes part as its image -/
+def cmp3 (c : CmpOp) (x y : Value) : Tri := cmpDb c x.db y.db
 
 /-- `x IN (v1, …, vn)` = `x = v1 OR … OR x = vn`; the empty list gives false -/
 def inSem (x : Value) : List Value → Tri
@@ -561,6 +583,7 @@ def asText : Value → Option Str
   | .int i => some (toString i).toList
   | .text s => some s
   | .blob _ => none
+  | .obj _ s => some s
 
 /-- `x LIKE p`. A BLOB on either side never matches (this SQLite is built with
 LIKE_DOESNT_MATCH_BLOBS: the result is 0, also against NULL). -/
@@ -600,6 +623,7 @@ def truth : Value → Tri
   | .int i => if i = 0 then .ff else .tt
   | .text _ => .ff
   | .blob _ => .ff
+  | .obj _ _ => .ff
 
 mutual
 /-- value of one clause on a row; consumes its parameters from the front of the list, in the
@@ -687,12 +711,13 @@ end
 
 /-! ## forgetting the values (for the non-interference statement) -/
 
-/-- keeps only whether the value is `None`, an `int` or a `str` -/
+/-- keeps only whether the value is `None`, an `int`, a `str`, bytes or an object of which class -/
 def Value.erase : Value → Value
   | .null => .null
   | .int _ => .int 0
   | .text _ => .text []
   | .blob _ => .blob []
+  | .obj c _ => .obj c []
 
 /-- keeps the kind of the argument, the length of a list/set and the types of the values -/
 def Arg.erase : Arg → Arg
